@@ -10,6 +10,7 @@ setup: translate coq driver
 
 translate:
 	python3 tools/translate.py $(SRC) $(COQDIR)/Gen
+	python3 tools/translate_fns.py $(SRC) $(COQDIR)/Gen
 
 $(COQDIR)/Makefile.coq: $(COQDIR)/_CoqProject
 	cd $(COQDIR) && coq_makefile -f _CoqProject -o Makefile.coq
